@@ -11,3 +11,12 @@ open Martian.Props.C01
 #print axioms next_request_served_iff
 #print axioms chunked_body_identical_for_every_chunking
 #print axioms rechunking_by_the_relay_preserves_body
+#print axioms read_wire_request
+#print axioms read_wire_request_any_chunking
+#print axioms read_wire_response
+#print axioms body_is_framing_independent
+#print axioms pipelined_requests_split_exactly
+#print axioms kept_alive_responses_split_exactly
+#print axioms relayed_request_is_the_request
+#print axioms relayed_response_is_the_response_partial
+#print axioms head_chunked_relay_leaves_stray_crlf
